@@ -304,6 +304,31 @@ func TestVerifC01(t *testing.T) {
 				_ = Ro.open(wd.g, e["S1"])
 				_ = Ro.open(wd.g, e["S2"])
 				check(wd, "forge-after-open-"+sn, fmt.Sprintf("counter=%d", k), Ro, wd.g, mut, nil, true)
+				// the same forgery as a push payload (the out-of-store box is under the group secret too, F can build
+				// it): with no entry identifier, and naming the identifier of a message the receiver has / has not opened
+				for _, ref := range []string{"none", "S1", "S2"} {
+					var idb []byte
+					if ref != "none" {
+						idb = cidOf(e[ref]).Bytes()
+					}
+					oos := &protocoltypes.OutOfStoreMessage{Cid: idb, DevicePk: sDevRaw, Counter: k, Sig: sig, EncryptedPayload: box, Nonce: []byte(fmt.Sprintf("forged-nonce-%d-%s........", k, sn))[:24]}
+					for ri, Rx := range []*party{wd.R.cloneParty(), Ro.cloneParty()} {
+						var clear []byte
+						var oerr error
+						func() {
+							defer func() {
+								if r := recover(); r != nil {
+									oerr = fmt.Errorf("PANIC %v", r)
+								}
+							}()
+							clear, _, oerr = Rx.st.OutOfStoreMessageOpen(context.Background(), oos, groupPK(wd.g))
+						}()
+						rep.Eval(fmt.Sprintf("%s/forge-push-%s/cid=%v/receiver-opened=%v/refused=%v", wd.kind, sn, ref != "none", ri == 1, oerr != nil))
+						if oerr == nil {
+							rep.Violation("C01/forged-push-payload-opened", fmt.Sprintf("world=%s: push payload forged by a fellow member (signature '%s', counter %d, entry identifier of %s, receiver has opened S1,S2: %v) is delivered as the sender's message: %q", wd.kind, sn, k, ref, ri == 1, clear), c01Case{World: wd.kind, Kind: "forge-push-" + sn, Detail: fmt.Sprintf("counter=%d cid=%s opened=%v", k, ref, ri == 1)})
+						}
+					}
+				}
 			}
 		}
 		rep.Sample(map[string]interface{}{"kind": "forge", "world": wd.kind, "signers": []string{"F-device", "F-member", "copied", "empty", "zero64", "group-secret-key"}, "counters": []int{1, 2, 3}})
